@@ -107,7 +107,7 @@ def _one(prop: str, base: str, m: Dict[str, Any], baseline: set) -> Dict[str, An
         shutil.rmtree(root, ignore_errors=True)
 
 
-def _seed(prop: str, base: str, sid: str, patch: str, baseline: set) -> Dict[str, Any]:
+def _seed(prop: str, base: str, sid: str, patch: str, baseline: set, declined_ok: bool = False) -> Dict[str, Any]:
     """A kept seeded defect (/verif/seeded/<id>/patch.diff, written by an independent sub-agent and confirmed to break the property):
     applied to a scratch copy, the quick check must report a violation that the unmodified copy does not."""
     root = _make_scratch(base, 's_' + sid)
@@ -120,6 +120,10 @@ def _seed(prop: str, base: str, sid: str, patch: str, baseline: set) -> Dict[str
         has_v = any(ln.startswith('VIOLATION ') for ln in res.stdout.splitlines())
         if res.returncode == 1 and new and has_v:
             return {'id': 'seed:' + sid, 'status': 'detected', 'expect': prop, 'report': new[0][:300]}
+        if declined_ok and res.returncode == 2 and not has_v:
+            # a seed recorded as out of reach (meta.json "verdict": "declined"): the change leaves the idioms the rules enumerate, the check
+            # must then refuse a verdict - what it must never do is pass silently
+            return {'id': 'seed:' + sid, 'status': 'seed-declined', 'expect': prop}
         return {'id': 'seed:' + sid, 'status': 'MISSED', 'expect': prop, 'exit': res.returncode, 'stdout_tail': res.stdout[-600:]}
     finally:
         shutil.rmtree(root, ignore_errors=True)
@@ -137,7 +141,7 @@ def _kept_seeds(prop: str) -> List[Any]:
         meta = json.load(open(meta_p))
         det = meta.get('detected_by', '')
         if re.search(r'\b' + prop + r'\.', det) or (meta.get('property') == prop and not re.search(r'\bC\d\d\.', det)):
-            out.append((sid, patch))
+            out.append((sid, patch, meta.get('verdict') == 'declined'))
     return out
 
 
@@ -157,7 +161,7 @@ def run_selftest(ctx: Any, prop: str, rules: Any) -> None:
         baseline = {_strip(ln) for ln in res0.stdout.splitlines() if ' [' in ln}
         with concurrent.futures.ThreadPoolExecutor(max_workers=min(16, os.cpu_count() or 4)) as ex:
             futs = [ex.submit(_one, prop, base, m, baseline) for m in mutants]
-            futs += [ex.submit(_seed, prop, base, sid, patch, baseline) for sid, patch in _kept_seeds(prop)]
+            futs += [ex.submit(_seed, prop, base, sid, patch, baseline, dec) for sid, patch, dec in _kept_seeds(prop)]
             results = [f.result() for f in futs]
     finally:
         shutil.rmtree(base, ignore_errors=True)
@@ -166,6 +170,7 @@ def run_selftest(ctx: Any, prop: str, rules: Any) -> None:
         'mutants': len(results),
         'detected': sum(1 for r in results if r['status'] == 'detected'),
         'kept_seeds_detected': sum(1 for r in results if r['status'] == 'detected' and r['id'].startswith('seed:')),
+        'kept_seeds_declined_as_recorded': sum(1 for r in results if r['status'] == 'seed-declined'),
         'negative_controls_silent': sum(1 for r in results if r['status'] == 'silent-ok'),
         'repairs_silence_known_findings': sum(1 for r in results if r['status'] == 'repair-silences'),
         'refused_no_verdict': sum(1 for r in results if r['status'] == 'refused'),
